@@ -387,3 +387,94 @@ func mandatoryLookup(lk *ssa.Lookup) bool {
 	}
 	return false
 }
+
+func init() {
+	p := registry["C17"]
+	p.Rules = append(p.Rules, RuleDef{ID: "C17.R4", Text: "${VAR} substitution: for every match of the placeholder pattern, when LookupEnv(name) reports the variable as set, ALL occurrences of \"${\"+name+\"}\" are replaced by its value in the text that is finally unmarshalled", Run: c17r4})
+	p.Explanation = strings.Replace(p.Explanation, "NOT decided:", "(R4) the ${VAR} substitution replaces every occurrence (ReplaceAll) of exactly \"${\"+name+\"}\" by LookupEnv(name)'s value, only when the variable is set, over all matches, and the substituted text is what gets parsed. NOT decided:", 1)
+}
+
+func c17r4(c *Ctx, id string) {
+	w := c.W
+	var fn *ssa.Function
+	for _, f := range w.ModFuncs {
+		if fname(f) == "dcp.newDcpConfig" {
+			fn = f
+		}
+	}
+	c.need(fn != nil, id, "dcp.newDcpConfig")
+	c.see(fn)
+	var repl *ssa.Call
+	nRepl := 0
+	allInstrs(fn, func(in ssa.Instruction) {
+		if call, ok := in.(*ssa.Call); ok {
+			cc := call.Common()
+			if isStaticCall(cc, "strings", "", "ReplaceAll") || (isStaticCall(cc, "strings", "", "Replace") && len(cc.Args) == 4 && w.Origin(cc.Args[3]) == "const(-1)") {
+				repl = call
+				nRepl++
+			} else if isStaticCall(cc, "strings", "", "Replace") {
+				repl = call
+				nRepl++
+			}
+		}
+	})
+	if nRepl != 1 {
+		c.Fail(id, "replace", fn.Pos(), "%d placeholder replacement calls (expected one ReplaceAll)", nRepl)
+		return
+	}
+	cc := repl.Common()
+	all := isStaticCall(cc, "strings", "", "ReplaceAll") || w.Origin(cc.Args[len(cc.Args)-1]) == "const(-1)"
+	c.Check(all, id, "every-occurrence", repl.Pos(), "all occurrences are replaced", "only a bounded number of occurrences of a placeholder is replaced")
+	// pattern = "${" + name + "}"
+	var name ssa.Value
+	okPat := false
+	if b, ok := unwrap(cc.Args[1]).(*ssa.BinOp); ok && b.Op == token.ADD && w.Origin(b.Y) == `const("}")` {
+		if b2, ok := b.X.(*ssa.BinOp); ok && b2.Op == token.ADD && w.Origin(b2.X) == `const("${")` {
+			name = b2.Y
+			okPat = true
+		}
+	}
+	c.Check(okPat, id, "pattern", repl.Pos(), "replaces exactly \"${\"+name+\"}\"", "the replaced text is "+w.Origin(cc.Args[1])+", expected \"${\"+name+\"}\"")
+	if !okPat {
+		return
+	}
+	// value = LookupEnv(name)#0, guarded by #1
+	var lk *ssa.Call
+	if ex, ok := unwrap(cc.Args[2]).(*ssa.Extract); ok && ex.Index == 0 {
+		if call, ok := ex.Tuple.(*ssa.Call); ok && isStaticCall(call.Common(), "os", "", "LookupEnv") {
+			lk = call
+		}
+	}
+	okVal := lk != nil && w.Origin(lk.Common().Args[0]) == w.Origin(name)
+	okGuard := lk != nil && guardedBy(repl.Block(), true, func(v ssa.Value) bool {
+		ex, ok := v.(*ssa.Extract)
+		return ok && ex.Index == 1 && ex.Tuple == ssa.Value(lk)
+	})
+	c.Check(okVal && okGuard, id, "value", repl.Pos(), "replacement value = LookupEnv(name), applied only when the variable is set", fmt.Sprintf("replacement value %s (from LookupEnv of the same name: %v, only when set: %v)", w.Origin(cc.Args[2]), okVal, okGuard))
+	// name = match[1] over FindAllStringSubmatch(pattern, file, -1)
+	no := w.Origin(name)
+	okAll := strings.Contains(no, "FindAllStringSubmatch)(") && strings.Contains(no, ", const(-1))[") && strings.HasSuffix(no, "][const(1)]")
+	c.Check(okAll, id, "all-matches", repl.Pos(), "name ranges over submatch 1 of all matches", "name ← "+no+", expected submatch[1] of every match (FindAllStringSubmatch(…, -1))")
+	// the substituted text is loop-carried and finally parsed
+	okCarried := false
+	if phi, ok := unwrap(cc.Args[0]).(*ssa.Phi); ok {
+		hasInit, hasUpd := false, false
+		for _, e := range phi.Edges {
+			if strings.HasPrefix(w.Origin(e), "call(os.ReadFile)(") {
+				hasInit = true
+			}
+			if unwrap(e) == ssa.Value(repl) {
+				hasUpd = true
+			}
+		}
+		// last Unmarshal consumes the phi
+		allInstrs(fn, func(in ssa.Instruction) {
+			if call, ok := in.(*ssa.Call); ok && call.Common().StaticCallee() != nil && call.Common().StaticCallee().Name() == "Unmarshal" {
+				if unwrap(call.Common().Args[0]) == ssa.Value(phi) {
+					okCarried = hasInit && hasUpd
+				}
+			}
+		})
+	}
+	c.Check(okCarried, id, "parsed-text", repl.Pos(), "substitutions accumulate over the file text and the result is what is unmarshalled", "the substituted text is not the accumulated file content that is finally parsed")
+}
